@@ -96,6 +96,10 @@ End R.
 #[global] Hint Rewrite @r_core_partial_sign : rfn.
 #[global] Hint Rewrite @r_core_signature_share_verify : rfn.
 #[global] Hint Rewrite @r_core_aggregate_verify : rfn.
+#[global] Hint Rewrite @r_public_key_share : rfn.
+#[global] Hint Rewrite @r_aggregate_signatures : rfn.
+#[global] Hint Rewrite @r_core_combine_signature_shares : rfn.
+#[global] Hint Rewrite @r_core_combine_public_key_shares : rfn.
 Print Assumptions r_public_key.
 Print Assumptions r_core_sign.
 Print Assumptions r_core_verify.
